@@ -9,35 +9,47 @@
    "static"), or ("spec", "expect") when the machine at Base 256 disagrees with what
    MC_CallLib predicted for the event class at Base 4. *)
 EXTENDS CallLib, Json, IOUtils
-VARIABLES i
-Data == JsonDeserialize(IOEnv.TRACE_FILE)
+(* One TLC step per recorded event (a behaviour of this specification = all traces, one after
+   the other), so that the depth of evaluation does not grow with the length of a trace.  The
+   parsed file is kept in the variable `data` (parsed once); the VIEW leaves it out of the
+   fingerprint.  `\E r \in {expr}` binds a value that is evaluated once. *)
+VARIABLES data, t, pos, S
+vars == <<data, t, pos, S>>
+View == <<t, pos>>
 
-RECURSIVE Run(_, _, _, _, _)
-\* L = the library [G, K, R]; S = [st |-> global cells, objs |-> kept result objects]
-\* returns <<>> if events pos.. are all accepted, else <<pos, clause>>
-Run(L, K, evs, pos, S) ==
-    IF pos > Len(evs) THEN <<>>
-    ELSE LET e == evs[pos] IN
-         IF e.op = "static"
-         THEN (IF e.obs = e.ref THEN Run(L, K, evs, pos + 1, S) ELSE <<pos, "static">>)
-         ELSE LET r == IF e.op \in ObjOps
-                       THEN LET o == ObjStep(L.R, S.objs, e, "faithful") IN
-                            [S |-> [st |-> S.st, objs |-> o.objs], exc |-> o.exc, ret |-> o.ret]
-                       ELSE LET g == Step(L.G, K, S.st, e) IN
-                            [S |-> [st |-> g.st, objs |-> S.objs], exc |-> g.exc, ret |-> g.ret]
-              IN
-              IF e.expect # "?" /\ r.exc # e.expect THEN <<pos, "expect">>
-              ELSE IF e.obs.exc # r.exc THEN <<pos, "exc">>
-              ELSE IF r.exc = "" /\ ~PyEq(e.obs.ret, r.ret) THEN <<pos, "ret">>
-              ELSE Run(L, K, evs, pos + 1, r.S)
+StepAll(L, st, e) ==
+    IF e.op \in ObjOps
+    THEN LET o == ObjStep(L.R, st.objs, e, "faithful") IN
+         [S |-> [st |-> st.st, objs |-> o.objs], exc |-> o.exc, ret |-> o.ret]
+    ELSE LET g == Step(L.G, L.K, st.st, e) IN
+         [S |-> [st |-> g.st, objs |-> st.objs], exc |-> g.exc, ret |-> g.ret]
+\* the clause an event breaks, "" if none
+Clause(e, r) == IF e.expect # "?" /\ r.exc # e.expect THEN "expect"
+                ELSE IF e.obs.exc # r.exc THEN "exc"
+                ELSE IF r.exc = "" /\ ~PyEq(e.obs.ret, r.ret) THEN "ret"
+                ELSE ""
+Start(d, i) == [st |-> d.traces[i].init, objs |-> <<>>]
 
-CheckAll == LET D == Data IN
-            /\ \A j \in 1..Len(D.traces) :
-                  LET t == D.traces[j]
-                      v == Run(D.lib, D.lib.K, t.events, 1, [st |-> t.init, objs |-> <<>>])
-                  IN IF v # <<>> THEN PrintT(<<"VERDICT", t.id, v[1], v[2]>>) ELSE TRUE
-            /\ PrintT(<<"CHECKED", Len(D.traces)>>)
-TInit == i = 0 /\ (CheckAll = TRUE)
-TNext == UNCHANGED i
-TSpec == TInit /\ [][TNext]_i
+TInit == \E d \in {JsonDeserialize(IOEnv.TRACE_FILE)} :
+            /\ data = d /\ t = 1 /\ pos = 1
+            /\ S = IF Len(d.traces) > 0 THEN Start(d, 1) ELSE [st |-> <<>>, objs |-> <<>>]
+NextTrace == /\ t' = t + 1 /\ pos' = 1
+             /\ S' = IF t + 1 <= Len(data.traces) THEN Start(data, t + 1) ELSE S
+TNext ==
+    /\ UNCHANGED data
+    /\ \/ /\ t <= Len(data.traces) /\ pos > Len(data.traces[t].events)          \* trace accepted
+          /\ NextTrace
+       \/ /\ t <= Len(data.traces) /\ pos <= Len(data.traces[t].events)
+          /\ \E e \in {data.traces[t].events[pos]} :
+                IF e.op = "static"
+                THEN IF e.obs = e.ref THEN pos' = pos + 1 /\ UNCHANGED <<t, S>>
+                     ELSE PrintT(<<"VERDICT", data.traces[t].id, pos, "static">>) /\ NextTrace
+                ELSE \E r \in {StepAll(data.lib, S, e)} :
+                       \E c \in {Clause(e, r)} :
+                          IF c = "" THEN pos' = pos + 1 /\ S' = r.S /\ UNCHANGED t
+                          ELSE PrintT(<<"VERDICT", data.traces[t].id, pos, c>>) /\ NextTrace
+       \/ /\ t = Len(data.traces) + 1
+          /\ PrintT(<<"CHECKED", Len(data.traces)>>)
+          /\ t' = t + 1 /\ UNCHANGED <<pos, S>>
+TSpec == TInit /\ [][TNext]_vars
 =============================================================================
